@@ -203,10 +203,63 @@ func (nopDataBroadcaster) WriteToStoreAndBroadcast(ctx context.Context, p *types
 
 // ---- DA layer -----------------------------------------------------------------------------------
 
-// Outcome of one SubmitWithOptions call.
+// Outcome of one SubmitWithOptions call: what the DA layer ANSWERS and what it in fact keeps.
+//   ok            ids of all blobs, nil error; the blobs are on a new DA height
+//   part          ids of the first K blobs, nil error (K = 0: a nil slice); those blobs are on a new DA height
+//   err timeout mempool toobig deadline cancel
+//                 an error of that class (generic / ErrTxTimedOut / ErrTxAlreadyInMempool / ErrBlobSizeOverLimit /
+//                 ErrContextDeadline / context.Canceled) TOGETHER WITH the ids of the first Ids blobs (0 = nil slice),
+//                 while the DA layer in fact keeps the first St blobs (0 = nothing) on a new DA height
+//   acklost       = err with St = all (kept for the replay files written before Ids / St existed)
 type Outcome struct {
-	Kind string `json:"kind"`        // ok part err timeout mempool toobig acklost
-	K    int    `json:"k,omitempty"` // part: number of blobs accepted
+	Kind string `json:"kind"`
+	K    int    `json:"k,omitempty"`   // part: number of blobs accepted
+	Ids  int    `json:"ids,omitempty"` // error answers: ids returned next to the error
+	St   int    `json:"st,omitempty"`  // error answers: blobs the DA layer keeps all the same
+}
+
+func (o Outcome) isErr() bool { return o.Kind != "ok" && o.Kind != "part" }
+
+// coq: the answer in the vocabulary of Model/IncluderAgg.v
+func (o Outcome) coq() string {
+	switch o.Kind {
+	case "ok":
+		return "AOk 1000"
+	case "part":
+		return fmt.Sprintf("AOk %d", o.K)
+	}
+	cls := "EOther"
+	switch o.Kind {
+	case "timeout":
+		cls = "ETimeout"
+	case "mempool":
+		cls = "EMempool"
+	case "cancel":
+		cls = "ECancel"
+	}
+	st := o.St
+	if o.Kind == "acklost" {
+		st = 1000
+	}
+	return fmt.Sprintf("AErr %s %d %d", cls, o.Ids, st)
+}
+
+func (o Outcome) err() error {
+	switch o.Kind {
+	case "timeout":
+		return coreda.ErrTxTimedOut
+	case "mempool":
+		return coreda.ErrTxAlreadyInMempool
+	case "toobig":
+		return coreda.ErrBlobSizeOverLimit
+	case "deadline":
+		return coreda.ErrContextDeadline
+	case "cancel":
+		return context.Canceled
+	case "acklost":
+		return errors.New("c07: connection lost after inclusion")
+	}
+	return errors.New("c07: DA unavailable")
 }
 
 type submitCall struct {
@@ -295,27 +348,35 @@ func (d *daDouble) SubmitWithOptions(ctx context.Context, blobs []coreda.Blob, g
 	}
 	var ids []coreda.ID
 	var err error
-	switch o.Kind {
-	case "part":
-		k := o.K
+	capn := func(k int) int {
 		if k > len(cp) {
-			k = len(cp)
+			return len(cp)
 		}
-		if k > 0 {
+		if k < 0 {
+			return 0
+		}
+		return k
+	}
+	switch {
+	case o.Kind == "part":
+		if k := capn(o.K); k > 0 {
 			ids = store(k)
 			call.Acked = true
 		}
-	case "err":
-		err = errors.New("c07: DA unavailable")
-	case "timeout":
-		err = coreda.ErrTxTimedOut
-	case "mempool":
-		err = coreda.ErrTxAlreadyInMempool
-	case "toobig":
-		err = coreda.ErrBlobSizeOverLimit
-	case "acklost":
-		store(len(cp))
-		err = errors.New("c07: connection lost after inclusion")
+	case o.isErr():
+		err = o.err()
+		st := capn(o.St)
+		if o.Kind == "acklost" {
+			st = len(cp)
+		}
+		h := d.top + 1 // ids that come with an error and without inclusion name a height the DA layer does not have
+		if st > 0 {
+			store(st)
+			h = d.top
+		}
+		for i := 0; i < capn(o.Ids); i++ {
+			ids = append(ids, makeID(h, i))
+		}
 	default:
 		ids = store(len(cp))
 		call.Acked = true
